@@ -27,3 +27,12 @@ Definition C01_stage_d_source : Prop :=
 
 Definition ex_expr : expr := EArith AAdd TInt (EConv TStr TInt (ECap 0 1 TStr)) (ELen EGetfilename).
 Definition ex_obj : object := mkobject (cexpr [] 0 ex_expr) [] 1 [].
+
+(* counter a; gauge g by k;  /x (\d+)/ { a++  g[$1] = $1 }  otherwise { a += 2 }   else-free, otherwise after a plain cond *)
+Definition wit_ok_prog : prog :=
+  mkprog [mkmdecl MCounter TInt 0; mkmdecl MGauge TInt 1]
+    (BCons (SCond (EMatch 0)
+              (BCons (SInc 0 XNil)
+              (BCons (SSet TInt 1 (XCons (ECap 0 1 TStr) XNil) (ECap 0 1 TInt)) BNil)))
+    (BCons (SOtherwise (BCons (SAddTo TInt 0 XNil (EInt 2)) BNil)) BNil))
+    [[120%N]] [].
